@@ -196,12 +196,13 @@ func withoutAttr(r layouts.Record, drop string) layouts.Record {
 	return r
 }
 
-func checkOneLayout(c c03Case, l layouts.Layout, which string) ([]layouts.Pair, error) {
+func checkOneLayout(c c03Case, l layouts.Layout, which string, shapes *[]string) ([]layouts.Pair, error) {
 	ex := extractorFor(c.Format)
 	if ex == nil {
 		return nil, fmt.Errorf("harness: unknown format %q", c.Format)
 	}
 	content := layouts.Render(c.Format, c.Records, l)
+	*shapes = append(*shapes, layouts.ShapeClasses(c.Format, c.Records, l, content)...)
 	path := layouts.Path(c.Format, l)
 	inv, xerr, herr := extractBytes(ex, path, content)
 	if herr != nil {
@@ -234,11 +235,12 @@ func checkOneLayout(c c03Case, l layouts.Layout, which string) ([]layouts.Pair, 
 }
 
 func propC03(c c03Case) (ev.Outcome, error) {
-	got1, err := checkOneLayout(c, c.Layout, "first")
+	var shapes []string
+	got1, err := checkOneLayout(c, c.Layout, "first", &shapes)
 	if err != nil {
 		return ev.Outcome{}, err
 	}
-	got2, err := checkOneLayout(c, c.Layout2, "second")
+	got2, err := checkOneLayout(c, c.Layout2, "second", &shapes)
 	if err != nil {
 		return ev.Outcome{}, err
 	}
@@ -289,9 +291,7 @@ func propC03(c c03Case) (ev.Outcome, error) {
 	if nspecial > 0 {
 		classes = append(classes, "has_special_case")
 	}
-	for _, l := range []layouts.Layout{c.Layout, c.Layout2} {
-		classes = append(classes, layouts.ShapeClasses(c.Format, c.Records, l, layouts.Render(c.Format, c.Records, l))...)
-	}
+	classes = append(classes, shapes...)
 	return ev.Outcome{NonTrivial: n >= 2 && (len(d1) > 0 || len(d2) > 0), Classes: uniqStr(classes)}, nil
 }
 
